@@ -19,7 +19,7 @@ RULE = ("5% `inflight` cases (a throttling rule that queues + 1-3 reject rules, 
         "cases = one LoadRules (1-3 hotspot QPS rules over 1-2 resources: reject / throttling / a slice of invalid or unsupported ones; "
         "thresholds, bursts, durations, queueing limits, specific-item tables, param index incl. negative and out of range, param key, "
         "ParamsMaxCapacity 0 (default) or 1..6) followed by 20-160 api.Entry calls whose arguments/attachments are drawn from a pool of 1-9 "
-        "values of kinds int,int64,string,bool,float64,struct,nil (pool size both below and above the capacity), batch counts around "
+        "values of kinds int,int64,string,bool,float64,struct{int,string},struct{string,string},[2]string,[2]int,nil (12% of the pools start with a pair of composite values that are != but print identically) (pool size both below and above the capacity), batch counts around "
         "threshold/threshold+burst, time steps around the pacing interval and the duration (0, 1, iv-1, iv, iv+1, D-1, D, D+1, 2D, random); "
         "fixed slices: known-finding region (threshold not dividing batch*D*1000, threshold > batch*D*1000), clock going backwards, int64 overflow; "
         "non-trivial = at least one admitted and one blocked/queued request and at least two distinct metered values; "
@@ -36,7 +36,7 @@ def fbits(x):
 def value_pool(rng, n):
     cands = []
     for _ in range(n * 3):
-        k = rng.choice("iissbftl")
+        k = rng.choice("iissbftlpaA")
         if k == "i":
             cands.append("v:i:%d" % rng.choice([0, 1, 2, 3, -1, 7, 42, rng.randint(-1000, 1000)]))
         elif k == "l":
@@ -45,11 +45,23 @@ def value_pool(rng, n):
             cands.append("v:s:" + rng.choice(["", "a", "b", "c", "1", "true", "user%d" % rng.randint(0, 20)]))
         elif k == "b":
             cands.append("v:b:%d" % rng.randint(0, 1))
+        elif k == "p":
+            # struct{A,B string}; '.' = space: distinct values that print identically with %v
+            cands.append("v:p:" + rng.choice(["acme.corp~bob", "acme~corp.bob", "a~b", "a.b~", "~a.b", "x~y", "~"]))
+        elif k == "a":
+            cands.append("v:a:" + rng.choice(["a.b~c", "a~b.c", "x~y", "~", "a~b"]))
+        elif k == "A":
+            cands.append("v:A:" + rng.choice(["1~2", "2~1", "0~0", "12~0"]))
         elif k == "f":
             cands.append("v:f:" + fbits(rng.choice([0.0, 1.0, 1.5, 2.0, -3.25, 1e300, float(rng.randint(0, 5))])))
         else:
             cands.append("v:t:%d_%s" % (rng.randint(0, 2), rng.choice(["", "a", "b"])))
     out = []
+    if n >= 2 and rng.random() < 0.12:
+        # a look-alike pair of composite values: != in Go, same printed form
+        out = list(rng.choice([("v:p:acme.corp~bob", "v:p:acme~corp.bob"), ("v:p:a.b~", "v:p:~a.b"), ("v:a:a.b~c", "v:a:a~b.c"),
+                               ("v:p:a~b", "v:a:a~b"), ("v:p:a.b~", "v:p:a~b")]))
+        DIST["pool-with-lookalike-composites"] += 1
     for c in cands:
         if c not in out:
             out.append(c)
@@ -224,6 +236,8 @@ def gen_case(rng, cid):
     main = rng.choice(rules)
     dms = min(max(1, main["D"]) * 1000, 10 ** 7)
     focus = rng.sample(pool, min(len(pool), rng.choice([1, 1, 2, 3, 9])))
+    if len(pool) >= 2 and pool[0] in ("v:p:acme.corp~bob", "v:p:a.b~", "v:a:a.b~c", "v:p:a~b") and pool[1][2] in "pa":
+        focus = list(dict.fromkeys(pool[:2] + focus))      # the look-alike pair gets the traffic
     nent = rng.randint(20, 160)
     maps = []
     if rng.random() < (0.6 if any(r["key"] != "-" for r in rules) else 0.15):
